@@ -2,7 +2,7 @@
    Theorem-only file: statements closed by [exact]; the model is Scan/Build.v (tied to
    graph/construct.go by the correspondence check), cst_wfb is the checked assumption about
    tree-sitter. *)
-From CPF Require Import Base.Bytes Base.BytesFacts Scan.Cst Scan.Build Scan.BuildFacts.
+From CPF Require Import Base.Bytes Base.BytesFacts Scan.Cst Scan.Build Scan.BuildFacts Engine.Render Engine.RenderFacts.
 
 (* every entity produced from ANY bytes and ANY well-formed tree over them: the reported file is
    the scanned path; the snippet occurs in the file, starting on the reported 1-based line *)
@@ -32,3 +32,19 @@ Example C04_example :
   exists pre post, src = pre ++ snip ++ post /\ (count_nl pre + 1)%N = 2%N
   /\ nth_error (split_on nl src) 1 = Some [x62; x63] /\ nth_error (split_on nl src) 2 = Some [x64; x65].
 Proof. exists [x61; nl; x62], [x65; nl; x66]. repeat split. Qed.
+
+(* text mode (cmd/query.go: the numbered snippet lines): the i-th line of an entity's snippet is printed
+   next to the number [line + i], and that text is (part of) line number [line + i] of the scanned file;
+   lines strictly inside the snippet are whole file lines.  [numbered_lines] is the rendering compared
+   byte for byte with the real text report (Engine/Render.v). *)
+Theorem C04_text_numbering : forall path src t g k e i s_i,
+  cst_wfb src t = true -> build_file path src t = Ok g -> In (k, e) (g_nodes g) ->
+  nth_error (split_on nl (n_snippet e)) i = Some s_i ->
+  nth_error (numbered_lines e) i = Some (numbered (n_line e + N.of_nat i) s_i)
+  /\ exists L a b,
+       nth_error (split_on nl src) (N.to_nat (n_line e + N.of_nat i) - 1) = Some L
+       /\ L = a ++ s_i ++ b
+       /\ (0 < i -> a = [])
+       /\ (i < N.to_nat (count_nl (n_snippet e)) -> b = []).
+Proof. exact text_numbering. Qed.
+Print Assumptions C04_text_numbering.
